@@ -240,6 +240,9 @@ func (l *lexer) Lex(lval *yySymType) (tokenType int) {
 			// -1 to adjust for first byte consumed by next()
 			l.offset += size - 1
 			l.token = l.source[l.offset-size : l.offset]
+		} else if ch == 0 { // not the end of the query
+			l.token = l.source[l.offset-1 : l.offset]
+			return tokInvalid
 		}
 	}
 	return int(ch)
@@ -263,9 +266,10 @@ func (l *lexer) next() (byte, bool) {
 
 func (l *lexer) skipComment() bool {
 	for {
-		switch l.peek() {
-		case 0:
+		if len(l.source) == l.offset {
 			return true
+		}
+		switch l.peek() {
 		case '\\':
 			switch l.offset++; l.peek() {
 			case '\\', '\n':
